@@ -992,6 +992,9 @@ def _c04_cases(ctx):
     return cases
 
 def oracles_C04(ctx, hints):
+    return _oracles_C04_main(ctx, hints) + oracles_C04_pcm_sync(ctx)
+
+def _oracles_C04_main(ctx, hints):
     fails, seen, n = [], set(), 0
     cases = _c04_cases(ctx)
     _prefetch_specs(cases)
@@ -1222,6 +1225,18 @@ def corr_C17(ctx):
         lines.append(gen.H("PCMDataPacket", ["unpack " + hexb(b), "obs"], (rng.choice(["0", "1"]), str(int.from_bytes(pat, "big")), "None")))
     lines.append(gen.H("PCMDataPacket", ["unpack x00000000" + "00" * 40, "obs"], ("0", str(2 ** 32), "None")))
     return lines
+
+def oracles_C04_pcm_sync(ctx):
+    """C04 also covers decoding packed PCM when only the sync word is given (2, 3, 5 frames; new and re-used decoder)"""
+    fails, n = [], 0
+    for c in _pcm_sync_cases(ctx):
+        n += 1
+        w = check_pcm_sync(c)
+        if w:
+            fails.append(Failure("ch11_pcm_sync", c, w, {"class": "PCMDataPacket", "check": "roundtrip", "by": "syncword"}))
+            break
+    ctx.count("oracle_evaluations", n)
+    return fails
 
 def oracles_C17(ctx, hints):
     fails, n = [], 0
